@@ -226,6 +226,7 @@ type World struct {
 
 	// scheduling strategy of this run
 	strat      int
+	lockStuck  bool // the main phase ended with tasks blocked on locks and nothing enabled
 	dir        *directedCfg // deadlock-directed re-execution (see directed.go)
 	preemptNum int // preemption probability preemptNum/preemptDen
 	preemptDen int
@@ -660,6 +661,7 @@ func (w *World) RunMain() {
 				stuck++
 				if stuck > 200 {
 					w.Logf("main phase ends: tasks blocked on locks, nothing enabled")
+					w.lockStuck = true
 					return
 				}
 			}
@@ -766,6 +768,8 @@ func (w *World) CheckNoDeadlock() {
 		sort.Strings(sigParts)
 		w.Violate("deadlock/"+strings.Join(uniq(sigParts), "+"), "tasks blocked forever on the stack's own locks: %s; all: %s",
 			strings.Join(stuck, "; "), strings.Join(w.S.BlockedReport(), "; "))
+		// the scenario's own check would call into a stack whose locks are held for ever
+		w.stopNow = true
 	}
 }
 
